@@ -193,6 +193,22 @@ func genC16(m0 *M, rounds int) {
 				m.hist++
 				m.emit("Adopt")
 				<-start
+				if focus == "" {
+					// prologue: every goroutine touches every shared argument in the ways that may lazily initialise or
+					// memoise something, so that "first use" happens concurrently in every round
+					m.EHashToGroup(0, sh.msg, sh.dstLong)
+					m.SHashToScalar(0, sh.msg, sh.dst)
+					m.EEqual(3, 2)
+					m.EEqual(2, 3)
+					m.ESet(1, 2)
+					m.EAdd(1, 3)
+					m.EMul(1, 1)
+					m.SBits(2)
+					m.EEncode(3)
+					m.EEncodeUnc(2)
+					m.SSet(0, 1)
+					m.SPow(0, 1)
+				}
 				for i := 0; i < 16; i++ {
 					if m.rng.Intn(3) == 0 {
 						runtime.Gosched()
